@@ -114,7 +114,7 @@ func c06Check(ti typeInfo, a, b dpt.Datapoint, p []byte) (accepted bool, f *comm
 	if err := a.Unpack(p); err != nil {
 		return false, nil
 	}
-	q := a.Pack()
+	q := packOwned(a)
 	if err := b.Unpack(q); err != nil {
 		return true, common.Failf("reencoded-rejected", "%s: payload %x decodes to %s, which re-encodes as %x, which the decoder rejects: %v",
 			ti.Name, p, showDP(a), q, err)
